@@ -209,7 +209,8 @@ def job(j):
         clause, case, cause = lst[0]
         v2, _ = run_case(case, ka)
         if not any(c == clause for c, _ in v2):
-            raise RuntimeError('non-deterministic failure')
+            key = key + '/order-dependent'
+            cause = f'{cause}; ' + 'failed during exploration but not on a fresh replay: the outcome depends on earlier executions in the same process (state outside the objects under test leaks between executions)'
         out.append(dict(key=key, clause=clause, n=len(lst), replay=dict(case=list(case), ka=ka),
                         detail=dict(cause=cause, count=case[2], split=case[3])))
     return n, oc, out, states, sample
